@@ -91,6 +91,9 @@ func applyTIFFPredictor2(data []byte, params Params) ([]byte, error) {
 	if bpc != 8 {
 		return nil, fmt.Errorf("TIFF Predictor 2 only supports 8 bits per component, got %d", bpc)
 	}
+	if err := checkRowGeometry(columns, colors); err != nil {
+		return nil, err
+	}
 
 	rowSize := columns * colors
 	if len(data)%rowSize != 0 {
@@ -126,6 +129,9 @@ func applyPNGPredictor(data []byte, predictor int, params Params) ([]byte, error
 	if bpc != 8 {
 		return nil, fmt.Errorf("PNG predictor only supports 8 bits per component, got %d", bpc)
 	}
+	if err := checkRowGeometry(columns, colors); err != nil {
+		return nil, err
+	}
 
 	// PNG predictors work on rows with a predictor byte at the start of each row
 	bytesPerPixel := colors
@@ -154,6 +160,15 @@ func applyPNGPredictor(data []byte, predictor int, params Params) ([]byte, error
 	}
 
 	return result, nil
+}
+
+// checkRowGeometry rejects predictor parameters that do not describe a row:
+// /Columns and /Colors come from the file and are used as divisors and sizes.
+func checkRowGeometry(columns, colors int) error {
+	if columns < 1 || colors < 1 || columns > (1<<30)/colors {
+		return fmt.Errorf("invalid predictor geometry: Columns %d, Colors %d", columns, colors)
+	}
+	return nil
 }
 
 // decodePNGRow decodes a single PNG-predicted row using the specified predictor.
